@@ -41,6 +41,18 @@ Definition c19_spec_exit (active0 : bool) (S : nat) (outs : list (list c19_outco
                else C19_GuardError (c19_pc_of active0 k) (c19_nfail outs k), k + 1)
   end.
 
+(* the prescribed result of a whole scope *)
+Definition c19_expected (act0 : bool) (S : nat) (outs : list (list c19_outcome)) : c19_gres :=
+  C19_Finished (map (fun r => (Some (fst (c19_spec_exit act0 S outs r)), snd (c19_spec_exit act0 S outs r))) (seq 0 (length outs))).
+
+(* nested guards: a group has failed iff some section of its inner scope fails *)
+Definition c19_group_failed (S : nat) (g : list (list c19_outcome)) : bool :=
+  match c19_first_fail g 0 S with Some _ => true | None => false end.
+
+(* outcome of each process in the OUTER scope: unwinding (Throws) iff its group's inner scope failed *)
+Definition c19_outer_outs (S : nat) (groups : list (list (list c19_outcome))) : list (list c19_outcome) :=
+  concat (map (fun g => map (fun _ => [if c19_group_failed S g then C19_Throws else C19_Ok]) g) groups).
+
 (* ------------------------------------------------------------------------------------------ *)
 (** * Future: acceptor of traces (applied to the model's traces in the theorems, to the impl's in the check) *)
 
@@ -99,7 +111,6 @@ Arguments c19_spec_accept {D}. Arguments c19_count_data {D}. Arguments c19_all_d
 (* ------------------------------------------------------------------------------------------ *)
 (** * The data a completed non-blocking operation delivers (collective semantics, cf. C07) *)
 
-Inductive c19_nbop := C19_Isend | C19_Irecv | C19_Ibcast | C19_Igather | C19_Iscatter | C19_Iallgather | C19_Iallreduce | C19_Ibarrier.
 
 Fixpoint c19_vadd (a b : list N) : list N :=
   match a, b with x :: a', y :: b' => N.add x y :: c19_vadd a' b' | _, _ => [] end.
